@@ -195,6 +195,13 @@ func Verify(suite Suite, message []byte, anonymitySet Set,
 	n := len(anonymitySet)           // anonymity set size
 	L := []kyber.Point(anonymitySet) // public keys in ring
 
+	// Nobody can have signed for an empty anonymity set: without this check
+	// the challenge ring below has no link and closes trivially (c0 == c0),
+	// so any byte string would be accepted.
+	if n == 0 {
+		return nil, errors.New("empty anonymity set")
+	}
+
 	// Decode the signature
 	buf := bytes.NewBuffer(signatureBuffer)
 	var linkBase, linkTag kyber.Point
